@@ -42,6 +42,9 @@ def run(e: Engine, rep: Report):
              'match; no boundary => (data, b"")')
     rep.rule('E2', 'payload -> _merge_payloads -> self.message -> flatten()[1] '
              'without transformation; self.message has two writers')
+    rep.rule('E6', 'the boundary pattern (regular-expression syntax tree) '
+             'matches a line end, white space only, and one more LF; its '
+             'middle part cannot run over further lines; it ends in LF')
     rep.rule('E3', 'every BytesParser / BytesGenerator of the module is '
              'built with the same policy')
     rep.rule('E4', 'Envelope.copy = copy.deepcopy(self); no pickling / '
@@ -55,10 +58,89 @@ def run(e: Engine, rep: Report):
         'email.message objects, the output of the 7-bit conversion',
         'that parse / flatten never raise on arbitrary bytes']
     e1_e2(e, rep)
+    e6(e, rep)
     e3(e, rep)
     e4(e, rep)
     e5(e, rep)
     rep.floor('E2', 4, 'body provenance obligations')
+
+
+def e6(e: Engine, rep: Report):
+    """The cut is after the FIRST blank line: the boundary pattern is a line
+    end, then nothing but white space, then LF - and the white space in
+    between is matched lazily (or cannot contain LF), so that blank lines
+    the body starts with stay in the body."""
+    from .. import regexast as rx
+    pat = rx.module_pattern(e, 'slimta.envelope', '_HEADER_BOUNDARY')
+    where = 'slimta.envelope._HEADER_BOUNDARY'
+    if pat is None:
+        rep.error('anchor vanished: _HEADER_BOUNDARY = re.compile(<const>)')
+        return
+    pattern, flags, node = pat
+    sc = rx._consts()
+    items = list(rx.parse(pattern, flags))
+    m = e.p.modules.get('slimta.envelope')
+    loc = '%s:%s' % (m.relpath, node.lineno)
+    SPACE = {9, 10, 11, 12, 13, 32}
+
+    def singles(its):
+        for it in its:
+            op, av = it
+            if op in (sc.MAX_REPEAT, sc.MIN_REPEAT):
+                yield from singles(list(av[2]))
+            elif op == sc.SUBPATTERN:
+                yield from singles(list(av[3]))
+            elif op == sc.BRANCH:
+                for alt in av[1]:
+                    yield from singles(list(alt))
+            elif op == sc.AT:
+                continue
+            else:
+                yield it
+    sets = [rx.charset(it, flags) for it in singles(items)]
+    rep.evaluations += 1
+    rep.check(all(cs is not None and cs <= SPACE for cs in sets) and
+              bool(sets), 'E6', where,
+              'the boundary consists of white space only',
+              'the boundary pattern %r can match characters that are not '
+              'white space: message text is taken for the blank line and cut '
+              'into the header block' % (pattern,), loc=loc,
+              reason='every character class of the pattern is within '
+              '[ \\t\\r\\n\\f\\v]')
+    # mandatory LFs at top level: a line end and the end of the blank line
+    top = [it for it in items if it[0] != sc.AT]
+    lfs = [i for i, it in enumerate(top) if it == (sc.LITERAL, 10)]
+    rep.evaluations += 1
+    rep.check(len(lfs) >= 2 and lfs[-1] == len(top) - 1, 'E6', where,
+              'a line end, then a line that ends in LF',
+              'the boundary pattern %r does not require two line feeds with '
+              'the second one last: a single line end counts as the blank '
+              'line, or the cut does not fall behind the blank line'
+              % (pattern,), loc=loc, reason='two mandatory LF, the last '
+              'item of the pattern')
+    # what may stand between them cannot run over further lines
+    rep.evaluations += 1
+    ok = True
+    if len(lfs) >= 2:
+        for it in top[lfs[0] + 1:lfs[-1]]:
+            op, av = it
+            if op == sc.MIN_REPEAT:
+                continue
+            if op == sc.MAX_REPEAT:
+                inner = [rx.charset(x, flags) for x in singles(list(av[2]))]
+                if any(cs is None or 10 in cs for cs in inner) and \
+                        av[1] > 1:
+                    ok = False
+            else:
+                cs = rx.charset(it, flags)
+                if cs is None:
+                    ok = False
+    rep.check(ok, 'E6', where, 'the blank line is the first one',
+              'the white space between the two line feeds is matched '
+              'greedily and may contain LF: blank lines (and leading white '
+              'space) at the start of the body are swallowed into the header '
+              'block', loc=loc, reason='lazy repeat / no LF inside the '
+              'repeat')
 
 
 def _slice_of(x, base: str):
@@ -97,6 +179,9 @@ def e1_e2(e: Engine, rep: Report):
     (hv, hn), (tv, tn) = heads[0], tails[0]
     hk = _slice_of(hn.value, data)[1]
     tk = _slice_of(tn.value, data)[1]
+    # the index may first be put in a local
+    if hk == tk and hk in assigns and len(assigns[hk]) == 1:
+        hk = tk = ast.unparse(assigns[hk][0].value)
     rep.check(hk == tk, 'E1', where,
               'header block and payload are complementary slices',
               '`%s = %s` and `%s = %s` do not cut the input at the same '
@@ -111,7 +196,7 @@ def e1_e2(e: Engine, rep: Report):
     ok = bool(mdefs) and all(
         isinstance(d.value, ast.Call) and isinstance(d.value.func,
                                                      ast.Attribute) and
-        d.value.func.attr in ('search', 'match') and
+        d.value.func.attr == 'search' and
         'HEADER_BOUNDARY' in ast.unparse(d.value) and
         any(ast.unparse(a) == data for a in d.value.args) for d in mdefs)
     rep.check(ok, 'E1', where,
@@ -295,16 +380,22 @@ def e5(e: Engine, rep: Report):
     raises = [n for n in g.of_kind('stmt') if isinstance(n.ast, ast.Raise)]
     recode = [n for n in g.calls() if e.call_name(n) == '_encode_parts']
     rep.evaluations += 1
-    if not probes or not hs or not raises or not recode:
-        rep.error('anchor vanished: probe / handler / raise / re-encode in '
-                  'encode_7bit')
+    if not probes or not hs:
+        rep.error('anchor vanished: ASCII probe of the body and its handler '
+                  'in encode_7bit')
         return
     live = dataflow.reachable(g)
+
+    def no_encoder(st):
+        return holds(st, (False, enc)) or holds(st, (True, enc + ' is None'))
+
+    def with_encoder(st):
+        return holds(st, (True, enc)) or holds(st, (False, enc + ' is None'))
     for n in raises:
         rep.evaluations += 1
         inh = any(sc.kind == 'handler' for sc in n.scopes)
         st = fx.at(n) or frozenset()
-        rep.check(n.id in live and inh and holds(st, (False, enc)), 'E5',
+        rep.check(n.id in live and inh and no_encoder(st), 'E5',
                   where, '8-bit body without an encoder is refused',
                   'the re-raise of the failed ASCII probe is not reached '
                   'exactly when no encoder was given: 8-bit data is passed '
@@ -315,7 +406,7 @@ def e5(e: Engine, rep: Report):
         rep.evaluations += 1
         inh = any(sc.kind == 'handler' for sc in n.scopes)
         st = fx.at(n) or frozenset()
-        rep.check(n.id in live and inh and holds(st, (True, enc)), 'E5',
+        rep.check(n.id in live and inh and with_encoder(st), 'E5',
                   where, 're-encoding only with an encoder, only for a '
                   '8-bit body', '_encode_parts runs without an encoder or '
                   'for a body that already is ASCII', loc=n.loc(),
